@@ -716,10 +716,20 @@ class LLMRails:
 
         # The processing is different for Colang 1.0 and 2.0
         if self.config.colang_version == "1.0":
+            last_bot_intent = None
             for event in new_events:
+                if event["type"] == "BotIntent":
+                    last_bot_intent = event["intent"]
+                elif event["type"] == "UserMessage":
+                    last_bot_intent = None
+
                 if event["type"] == "StartUtteranceBotAction":
-                    # Check if we need to remove a message
-                    if event["script"] == "(remove last message)":
+                    # Check if we need to remove a message. Only a flow can ask for this
+                    # (`bot remove last message`), a text with this content is just a text.
+                    if (
+                        event["script"] == "(remove last message)"
+                        and last_bot_intent == "remove last message"
+                    ):
                         responses = responses[0:-1]
                     else:
                         responses.append(event["script"])
